@@ -114,7 +114,7 @@ Section Tunnel.
   Lemma can_h_ok : canonical_header spec_Can = Some can_h.
   Proof. reflexivity. Qed.
   Lemma spec_Can_in : In spec_Can all_specs.
-  Proof. vm_compute. tauto. Qed.
+  Proof. exact in_Can. Qed.
 
   Definition hdr_sets (fd:bool) (fr:cframe) (ts:N) : list (string * N) :=
     [("AVTP_CAN_FIELD_MESSAGE_TIMESTAMP", ts); ("AVTP_CAN_FIELD_MTV", 1);
@@ -172,7 +172,7 @@ Section Tunnel.
     assert (Hs0 : skipn 16 b0 = skipn 16 b).
     { unfold b0. rewrite upd_as_app by (rewrite repeat_length; lia). cbn [N.to_nat firstn app]. rewrite repeat_length.
       rewrite skipn_app, repeat_length. rewrite skipn_all2 by (rewrite repeat_length; lia). reflexivity. }
-    rewrite (finit_exact spec_Can can_h b0 spec_Can_in can_h_ok) by (first [discriminate|exact Hn0|rewrite Hb0; cbn [sp_hdr_len spec_Can]; lia]).
+    rewrite (finit_exact spec_Can can_h b0 spec_Can_in can_h_ok) by (first [discriminate | exact Hn0 | rewrite Hb0; cbn [sp_hdr_len spec_Can]; lia]).
     cbn [Paths.bind]. change (N.to_nat (sp_hdr_len spec_Can)) with 16%nat. rewrite Hs0.
     set (b1 := can_h ++ skipn 16 b).
     assert (Hn1 : normal b1).
@@ -181,7 +181,7 @@ Section Tunnel.
     assert (Hb1 : blen b1 = blen b).
     { unfold b1, blen. rewrite app_length, skipn_length. change (List.length can_h) with 16%nat. unfold blen in Hb. lia. }
     fold (hdr_sets fd fr ts).
-    rewrite (sets_exact spec_Can (hdr_sets fd fr ts) spec_Can_in) by (first [destruct fd; reflexivity|exact Hn1|rewrite Hb1; cbn [sp_hdr_len spec_Can]; lia]).
+    rewrite (sets_exact spec_Can (hdr_sets fd fr ts) spec_Can_in) by (first [(lazymatch goal with |- forallb _ _ = true => destruct fd; reflexivity end) | exact Hn1 | rewrite Hb1; cbn [sp_hdr_len spec_Can]; lia]).
     cbn [Paths.bind]. set (b3 := set_all spec_Can (hdr_sets fd fr ts) b1).
     assert (Hn3 : normal b3) by (apply normal_set_all; exact Hn1).
     assert (Hb3 : blen b3 = blen b) by (unfold b3; rewrite blen_set_all; exact Hb1).
@@ -193,7 +193,7 @@ Section Tunnel.
     fold (idof fr).
     assert (Hcc : can_create LD ST cf_full b3 (idof fr) (cf_fdata fr) (cf_flen fr) (if fd then 1 else 0) =
                   Ok (can_ref cf_full b3 (idof fr) (payload_of fr) (if fd then 1 else 0))).
-    { unfold can_create. rewrite set_payload_firstn by (first [lia|rewrite Hdl; destruct fd; lia]).
+    { unfold can_create. rewrite set_payload_firstn by (first [lia | rewrite Hdl; destruct fd; lia]).
       fold (payload_of fr).
       pose proof (create_exact E cf_full cf_full_in cf_full_ok b3 (idof fr) (payload_of fr) (if fd then 1 else 0)) as Hce.
       cbv zeta in Hce. rewrite Hpl in Hce. unfold can_create in Hce. apply Hce;
@@ -201,7 +201,7 @@ Section Tunnel.
     rewrite Hcc. cbn [Paths.bind].
     pose proof (can_ref_shape cf_full cf_full_in cf_full_ok b3 (idof fr) (payload_of fr) (if fd then 1 else 0)) as Hsh.
     cbv zeta in Hsh. rewrite Hpl in Hsh. fold (padof (cf_flen fr)) in Hsh. cbn [sp_hdr_len cf_spec cf_full spec_Can] in Hsh.
-    rewrite (map_mod_normal _ Hnp) in Hsh. rewrite Hsh by (first [exact Hn3|rewrite Hb3; lia]). cbn [fst snd]. clear Hsh.
+    rewrite (map_mod_normal _ Hnp) in Hsh. rewrite Hsh by (first [exact Hn3 | rewrite Hb3; lia]). cbn [fst snd]. clear Hsh.
     set (H0 := can_hdr cf_full b3 (idof fr) (if fd then 1 else 0) (cf_flen fr) (padof (cf_flen fr))).
     set (z := repeat 0 (N.to_nat (padof (cf_flen fr)))).
     assert (Hz : N.of_nat (List.length z) = padof (cf_flen fr)) by (unfold z; rewrite repeat_length; lia).
@@ -213,7 +213,7 @@ Section Tunnel.
     assert (Hfin : fsetf LD ST spec_Can "AVTP_CAN_FIELD_EFF" e (upd (upd H0 16 (payload_of fr)) (16 + cf_flen fr) z) =
                    Ok (upd (ref_set spec_Can "AVTP_CAN_FIELD_EFF" e H0) 16 (payload_of fr ++ z))).
     { rewrite (fsetf_exact E spec_Can spec_Can_in) by
-        (first [reflexivity | repeat apply normal_upd; assumption | rewrite !blen_upd, HbH0; cbn [sp_hdr_len spec_Can]; lia]).
+        (first [nok | eqrefl | repeat apply normal_upd; assumption | rewrite !blen_upd, HbH0; cbn [sp_hdr_len spec_Can]; lia]).
       f_equal.
       pose proof (C06Proofs.ref_set_upd cf_full cf_full_in cf_full_ok "AVTP_CAN_FIELD_EFF" e (upd H0 16 (payload_of fr)) (16 + cf_flen fr) z) as R1.
       cbn [cf_spec cf_full sp_hdr_len spec_Can cf_eff cf_id cf_fdf cf_len cf_pad] in R1.
@@ -232,9 +232,9 @@ Section Tunnel.
     assert (HbHD : blen HD = blen b) by (unfold HD; rewrite <- HH; rewrite FieldOpsProofs.blen_ref_set; exact HbH0).
     assert (Hpz : N.of_nat (List.length (payload_of fr ++ z)) = cf_flen fr + padof (cf_flen fr)) by (rewrite app_length; lia).
     (* the returned length *)
-    rewrite (fgetd_exact E spec_Can spec_Can_in) by (first [reflexivity | rewrite blen_upd, HbHD; cbn [sp_hdr_len spec_Can]; lia]).
+    rewrite (fgetd_exact E spec_Can spec_Can_in) by (first [nok | eqrefl | rewrite blen_upd, HbHD; cbn [sp_hdr_len spec_Can]; lia]).
     cbn [Paths.bind].
-    rewrite (FieldOpsProofs.ref_get_upd_far spec_Can spec_Can_in) by (first [reflexivity | cbn [sp_hdr_len spec_Can]; lia | rewrite Hpz, HbHD; lia]).
+    rewrite (FieldOpsProofs.ref_get_upd_far spec_Can spec_Can_in) by (first [nok | eqrefl | cbn [sp_hdr_len spec_Can]; lia | rewrite Hpz, HbHD; lia]).
     unfold HD at 2. unfold msg_hdr.
     rewrite (ref_get_set_all spec_Can "AVTP_CAN_FIELD_ACF_MSG_LENGTH" (all_sets fd fr ts) spec_Can_in eq_refl (all_sets_ok fd fr ts))
       by (fold b1; rewrite Hb1; cbn [sp_hdr_len spec_Can]; lia).
@@ -366,8 +366,8 @@ Section Tunnel.
     can_payload_length LD ST cf_full X = Ok (cf_flen fr).
   Proof.
     intros [Hlen _] V Hb. unfold can_payload_length, getf_ded. cbn [cf_len cf_pad cf_full cf_spec].
-    rewrite (fgetd_exact E spec_Can spec_Can_in) by (first [exact Hb|reflexivity]). cbn [Paths.bind].
-    rewrite (fgetd_exact E spec_Can spec_Can_in) by (first [exact Hb|reflexivity]). cbn [Paths.bind].
+    rewrite (fgetd_exact E spec_Can spec_Can_in) by (first [exact Hb | nok | eqrefl]). cbn [Paths.bind].
+    rewrite (fgetd_exact E spec_Can spec_Can_in) by (first [exact Hb | nok | eqrefl]). cbn [Paths.bind].
     rewrite (v_len _ _ _ V), (v_pad _ _ _ V). f_equal. cbn [sp_hdr_len spec_Can].
     assert (Hl64 : cf_flen fr <= 64) by (destruct fd; lia).
     unfold msg_len, padof. lia.
@@ -400,30 +400,30 @@ Section Tunnel.
     replace (msg_length - mpb <? 16) with false by (symmetry; apply N.ltb_ge; lia).
     set (off := proc + mpb) in *.
     assert (HbX : 16 <= blen (sub pdu off)) by (rewrite blen_sub, Hlen; unfold off; lia).
-    rewrite (get_ok E spec_AcfCommon) by (first [reflexivity | vm_compute; tauto | (rewrite Hlen; unfold off; cbn [sp_hdr_len spec_AcfCommon]; lia)]). cbn [lbind].
+    rewrite (get_ok E spec_AcfCommon) by (first [nok | eqrefl | inspec | (rewrite Hlen; unfold off; cbn [sp_hdr_len spec_AcfCommon]; lia)]). cbn [lbind].
     rewrite (v_type _ _ _ V). cbn [N.eqb Pos.eqb negb].
-    rewrite (get_ok E spec_Can) by (first [reflexivity | vm_compute; tauto | (rewrite Hlen; unfold off; cbn [sp_hdr_len spec_Can]; lia)]). cbn [lbind].
-    rewrite (get_ok E spec_Can) by (first [reflexivity | vm_compute; tauto | (rewrite Hlen; unfold off; cbn [sp_hdr_len spec_Can]; lia)]). cbn [lbind].
+    rewrite (get_ok E spec_Can) by (first [nok | eqrefl | inspec | (rewrite Hlen; unfold off; cbn [sp_hdr_len spec_Can]; lia)]). cbn [lbind].
+    rewrite (get_ok E spec_Can) by (first [nok | eqrefl | inspec | (rewrite Hlen; unfold off; cbn [sp_hdr_len spec_Can]; lia)]). cbn [lbind].
     rewrite (cpl_value fd fr _ Hok V HbX). cbn [lbind].
     rewrite (v_id _ _ _ V), (v_len _ _ _ V).
     assert (Hacf : (msg_len fr / 4 * 4) mod 2 ^ 16 = msg_len fr) by lia. rewrite Hacf.
     match goal with |- context [if ?c then (XDropped, _) else _] =>
       replace c with false by (symmetry; repeat (apply orb_false_iff; split); apply N.ltb_ge; first [lia | destruct fd; lia]) end.
-    rewrite (get_ok E spec_Can) by (first [reflexivity | vm_compute; tauto | (rewrite Hlen; unfold off; cbn [sp_hdr_len spec_Can]; lia)]). cbn [lbind].
+    rewrite (get_ok E spec_Can) by (first [nok | eqrefl | inspec | (rewrite Hlen; unfold off; cbn [sp_hdr_len spec_Can]; lia)]). cbn [lbind].
     rewrite (v_eff _ _ _ V).
     assert (Hsffb : (flag (cf_canid fr) CAN_EFF_FLAG =? 0) && (0x7FF <? idof fr) = false).
     { destruct (flag (cf_canid fr) CAN_EFF_FLAG =? 0) eqn:Ef; [|reflexivity]. apply N.eqb_eq in Ef. specialize (Hsff Ef). cbn [andb]. apply N.ltb_ge. exact Hsff. }
     rewrite Hsffb.
-    rewrite (get_ok E spec_Can) by (first [reflexivity | vm_compute; tauto | (rewrite Hlen; unfold off; cbn [sp_hdr_len spec_Can]; lia)]). cbn [lbind].
+    rewrite (get_ok E spec_Can) by (first [nok | eqrefl | inspec | (rewrite Hlen; unfold off; cbn [sp_hdr_len spec_Can]; lia)]). cbn [lbind].
     rewrite (v_rtr _ _ _ V).
     assert (Hcopy : (cf_flen fr <=? (if fd then 64 else 8)) && (off + 16 + cf_flen fr <=? blen pdu) = true).
     { apply andb_true_iff. split; apply N.leb_le; [exact Hl|rewrite Hlen; unfold off; lia]. }
     assert (Hsl : slice pdu (off + 16) (N.to_nat (cf_flen fr)) = payload_of fr) by (rewrite <- slice_sub; exact (v_payload _ _ _ V)).
     fold (id_out fr).
     destruct fd.
-    - rewrite (get_ok E spec_Can) by (first [reflexivity | vm_compute; tauto | (rewrite Hlen; unfold off; cbn [sp_hdr_len spec_Can]; lia)]). cbn [lbind].
-      rewrite (get_ok E spec_Can) by (first [reflexivity | vm_compute; tauto | (rewrite Hlen; unfold off; cbn [sp_hdr_len spec_Can]; lia)]). cbn [lbind].
-      rewrite (get_ok E spec_Can) by (first [reflexivity | vm_compute; tauto | (rewrite Hlen; unfold off; cbn [sp_hdr_len spec_Can]; lia)]). cbn [lbind].
+    - rewrite (get_ok E spec_Can) by (first [nok | eqrefl | inspec | (rewrite Hlen; unfold off; cbn [sp_hdr_len spec_Can]; lia)]). cbn [lbind].
+      rewrite (get_ok E spec_Can) by (first [nok | eqrefl | inspec | (rewrite Hlen; unfold off; cbn [sp_hdr_len spec_Can]; lia)]). cbn [lbind].
+      rewrite (get_ok E spec_Can) by (first [nok | eqrefl | inspec | (rewrite Hlen; unfold off; cbn [sp_hdr_len spec_Can]; lia)]). cbn [lbind].
       rewrite (v_brs _ _ _ V), (v_fdf _ _ _ V), (v_esi _ _ _ V). rewrite Hcopy, Hsl. reflexivity.
     - rewrite Hcopy, Hsl. reflexivity.
   Qed.
@@ -454,7 +454,7 @@ Section Tunnel.
       destruct HisM as [ts [b [HMeq [Hb _]]]].
       cbn [List.concat] in Hsub. rewrite <- app_assoc in Hsub. cbn [total_len] in Htot.
       assert (V : msg_vals fd fr (sub pdu (proc + mpb))) by (rewrite Hsub, HMeq; apply msg_values; assumption).
-      rewrite (lloop_step fd pdu proc msg_length k mpb fs acc fr Hlen Hfit Hok1 Hsff1 V) by (first [lia|exact Hd]).
+      rewrite (lloop_step fd pdu proc msg_length k mpb fs acc fr Hlen Hfit Hok1 Hsff1 V) by (first [lia | exact Hd]).
       rewrite (IH Ms' rest k (mpb + msg_len fr) (next_frame fd fs fr) (render E fd (next_frame fd fs fr) :: acc) HM' Hok' Hsff').
       + cbn [rev frames_out]. rewrite <- app_assoc. reflexivity.
       + replace (proc + (mpb + msg_len fr)) with (proc + mpb + msg_len fr) by lia. rewrite <- sub_sub, Hsub.
@@ -535,7 +535,7 @@ Section Tunnel.
   Definition cf_hdr (tscf:bool) (seq:N) (b:buf) : buf :=
     set_all (cfS tscf) (cf_init_sets tscf seq) (cf_canon tscf ++ skipn (N.to_nat (cf_hl tscf)) b).
   Lemma cfS_in tscf : In (cfS tscf) all_specs.
-  Proof. destruct tscf; vm_compute; tauto. Qed.
+  Proof. destruct tscf; [exact in_Tscf|exact in_Ntscf]. Qed.
   Lemma cf_hl_ok tscf : sp_hdr_len (cfS tscf) = cf_hl tscf.
   Proof. destruct tscf; reflexivity. Qed.
   Lemma cf_canon_len tscf : N.of_nat (List.length (cf_canon tscf)) = cf_hl tscf.
@@ -566,8 +566,8 @@ Section Tunnel.
       - apply normal_app; [|apply normal_skipn'; exact Hn]. destruct (layout s Hs) as [h' [Hc' [_ [Hnh _]]]]. rewrite Hc in Hc'. inversion Hc'; subst h'. exact Hnh.
       - unfold blen in *. rewrite app_length, skipn_length. lia. }
     destruct tscf; cbn [cf_hl cfS cf_init_sets cf_canon] in *.
-    - rewrite (G spec_Tscf (cf_canon true) 24) by (first [vm_compute; tauto | reflexivity | discriminate | exact Hb]). reflexivity.
-    - rewrite (G spec_Ntscf (cf_canon false) 12) by (first [vm_compute; tauto | reflexivity | discriminate | exact Hb]). reflexivity.
+    - rewrite (G spec_Tscf (cf_canon true) 24) by (first [inspec | nok | eqrefl | discriminate | exact Hb]). reflexivity.
+    - rewrite (G spec_Ntscf (cf_canon false) 12) by (first [inspec | nok | eqrefl | discriminate | exact Hb]). reflexivity.
   Qed.
 
   (* ---------- the whole packet ---------- *)
@@ -609,7 +609,7 @@ Section Tunnel.
                                             (fun r => Ok (fst r, 4)) else Ok (pdu, 0)) = Ok (pdu1, if udp then 4 else 0) /\ normal pdu1 /\ blen pdu1 = 1500).
     { destruct udp; [|exists pdu; repeat split; assumption].
       unfold at_off, only, sub. cbn [N.to_nat skipn firstn app].
-      rewrite (fsetf_exact E spec_Udp) by (first [vm_compute; tauto | reflexivity | exact Hn | (rewrite Hlen; cbn; lia)]).
+      rewrite (fsetf_exact E spec_Udp) by (first [inspec | nok | eqrefl | exact Hn | (rewrite Hlen; cbn; lia)]).
       cbn [Paths.bind fst snd]. eexists. split; [reflexivity|]. split; [apply FieldOpsProofs.normal_ref_set; exact Hn|rewrite FieldOpsProofs.blen_ref_set; exact Hlen]. }
     destruct H0 as [pdu1 [H0 [Hn1 Hlen1]]]. rewrite H0. cbn [Paths.bind fst snd]. clear H0.
     set (cf_off := if udp then 4 else 0) in *.
@@ -731,11 +731,11 @@ Section Tunnel.
     rewrite Hsl. fold proc0.
     replace (proc0 + hl + T <? proc0 + 12) with false by (symmetry; apply N.ltb_ge; lia).
     assert (Hudp : exists x, (if udp then get LD ST spec_Udp "AVTP_UDP_FIELD_ENCAPSULATION_SEQ_NO" pduL 0 else Ok 0) = Ok x).
-    { destruct udp; [|eexists; reflexivity]. rewrite (get_ok E); [eexists; reflexivity|vm_compute; tauto|reflexivity|rewrite HlenL; cbn; lia]. }
+    { destruct udp; [|eexists; reflexivity]. rewrite (get_ok E); [eexists; reflexivity|inspec|nok|rewrite HlenL; cbn; lia]. }
     destruct Hudp as [x Hx]. rewrite Hx. cbn [lbind]. clear Hx x.
     assert (HsubL : sub pduL proc0 = Hd ++ List.concat Ms ++ stale').
     { unfold pduL, sent. rewrite <- !app_assoc. rewrite <- HU. apply sub_app_len. }
-    rewrite (get_ok E spec_CommonHeader) by (first [reflexivity | vm_compute; tauto | (rewrite HlenL; cbn [sp_hdr_len spec_CommonHeader]; lia)]). cbn [lbind].
+    rewrite (get_ok E spec_CommonHeader) by (first [nok | eqrefl | inspec | (rewrite HlenL; cbn [sp_hdr_len spec_CommonHeader]; lia)]). cbn [lbind].
     rewrite HsubL.
     assert (Hst' : ref_get spec_CommonHeader "AVTP_COMMON_HEADER_FIELD_SUBTYPE" (Hd ++ List.concat Ms ++ stale') = if tscf then 5 else 0x82).
     { rewrite <- (Hsub (List.concat Ms ++ stale')). destruct tscf; reflexivity. }
@@ -747,13 +747,13 @@ Section Tunnel.
     destruct tscf; cbn [N.eqb Pos.eqb orb negb].
     - replace hl with 24 in * by reflexivity.
       replace (proc0 + 24 + T <? proc0 + 24) with false by (symmetry; apply N.ltb_ge; lia).
-      rewrite (get_ok E spec_Tscf) by (first [reflexivity | vm_compute; tauto | (rewrite HlenL; cbn [sp_hdr_len spec_Tscf]; lia)]). cbn [lbind].
+      rewrite (get_ok E spec_Tscf) by (first [nok | eqrefl | inspec | (rewrite HlenL; cbn [sp_hdr_len spec_Tscf]; lia)]). cbn [lbind].
       rewrite HsubL. pose proof (Hdl (List.concat Ms ++ stale')) as Hd1. cbn [cfS cf_len_name] in Hd1. rewrite Hd1.
       replace (proc0 + 24 + T - (proc0 + 24) <? T) with false by (symmetry; apply N.ltb_ge; lia).
       rewrite (lloop_run fd pduL (proc0 + 24) T HlenL) with (frs := map fst frs) (Ms := Ms) (rest := stale');
         [reflexivity|lia|exact HMs|exact Hok|exact Hsff|exact HsubM|lia|reflexivity|exact Hfuel].
     - replace hl with 12 in * by reflexivity.
-      rewrite (get_ok E spec_Ntscf) by (first [reflexivity | vm_compute; tauto | (rewrite HlenL; cbn [sp_hdr_len spec_Ntscf]; lia)]). cbn [lbind].
+      rewrite (get_ok E spec_Ntscf) by (first [nok | eqrefl | inspec | (rewrite HlenL; cbn [sp_hdr_len spec_Ntscf]; lia)]). cbn [lbind].
       rewrite HsubL. pose proof (Hdl (List.concat Ms ++ stale')) as Hd1. cbn [cfS cf_len_name] in Hd1. rewrite Hd1.
       replace (proc0 + 12 + T - (proc0 + 12) <? T) with false by (symmetry; apply N.ltb_ge; lia).
       rewrite (lloop_run fd pduL (proc0 + 12) T HlenL) with (frs := map fst frs) (Ms := Ms) (rest := stale');
